@@ -87,8 +87,9 @@ var c04alphabet = []string{
 	`@apply f 4`,   // env.Apply of the compiled function bound to f
 	`@apply str 4`, // env.Apply of a builtin
 	`@apply lp 3 0`,
-	`@loadrun (+ a 1)`, // env.LoadString + env.Run
-	`@evalexprs (f 1)`, // env.EvalExpressions of a parsed form
+	`@loadrun (+ a 1)`,         // env.LoadString + env.Run
+	`@evalexprs (f 1)`,         // env.EvalExpressions of a parsed form
+	`@load2 (+ a 1) | (+ a 2)`, // two env.LoadString calls, then one env.Run
 }
 
 // c04host performs an evaluation through the Go API.
@@ -126,6 +127,14 @@ func c04host(tr *zy.Traced, op string) (res zy.Res) {
 	case "@loadrun":
 		if err := env.LoadString(fields[1] + "\n"); err != nil {
 			return zy.Res{Err: err.Error()}
+		}
+		return done(env.Run())
+	case "@load2":
+		parts := strings.SplitN(fields[1], " | ", 2)
+		for _, t := range parts {
+			if err := env.LoadString(t + "\n"); err != nil {
+				return zy.Res{Err: err.Error()}
+			}
 		}
 		return done(env.Run())
 	case "@evalexprs":
@@ -315,7 +324,7 @@ func init() {
 	engine.Register(&engine.Check{
 		ID:    "C04",
 		Level: "model_checking",
-		Rule: "explicit-state BFS over histories of evaluations on one long-lived interpreter (StandardSetup): alphabet of 57 operations, one per family of the full surface language (core forms, struct/var/func/method/interface, defmac and macro calls, macexpand, range, infix blocks, package, tail recursion, lazy forcing, eval, failing forms, unparsable text, empty input, and evaluations made through the Go API: Apply of a compiled function and of a builtin, LoadString+Run, EvalExpressions); " +
+		Rule: "explicit-state BFS over histories of evaluations on one long-lived interpreter (StandardSetup): alphabet of 58 operations, one per family of the full surface language (core forms, struct/var/func/method/interface, defmac and macro calls, macexpand, range, infix blocks, package, tail recursion, lazy forcing, eval, failing forms, unparsable text, empty input, and evaluations made through the Go API: Apply of a compiled function and of a builtin, LoadString+Run, EvalExpressions); " +
 			"state key = four stack depths + sorted printed user globals; in every state: stacks at rest after a success, empty input gives nil, all forms in one call == one at a time; depth 3 (thorough 4). " +
 			"Plus the C02/C03/C09/C16 program grammars evaluated in batches of 40 on one interpreter with the stacks checked after each success; distinct_nontrivial = distinct (value, state) outcomes",
 		Assumptions: []string{"depths are read through the verif accessor VerifDepths", "after a failed evaluation the interpreter is cleared as the REPL does (what a failure leaves behind is C05)"},
